@@ -80,6 +80,22 @@ def Field.wellTyped (f : Field) : Bool :=
 def clientPairs (st : Struct) : List (Bytes × Bytes) :=
   st.flatMap fun f => f.vals.map fun v => (f.spec.calias, textOf v)
 
+/-- The same pairs with every name passed through `norm` — what a transport that re-spells names
+    does to them (fasthttp canonicalises header names on both sides). -/
+def clientPairsN (norm : Bytes → Bytes) (st : Struct) : List (Bytes × Bytes) :=
+  st.flatMap fun f => f.vals.map fun v => (norm f.spec.calias, textOf v)
+
+/-- fasthttp `normalizeHeaderKey` (header.go): first byte and every byte after a '-' upper-cased, the
+    others lower-cased. -/
+def normalizeHeaderKey : Bytes → Bytes
+  | [] => []
+  | c :: cs =>
+    let rec go : Bytes → Bool → Bytes
+      | [], _ => []
+      | x :: xs, up => if up then upperByte x :: go xs false
+                       else if x == 45 then x :: go xs true else lowerByte x :: go xs false
+    upperByte c :: go cs false
+
 /-- `SetValWithStruct` into the `Cookie` map: `Add` assigns, so the last element of a slice wins
     and an empty slice leaves nothing. -/
 def cookiePairs (st : Struct) : List (Bytes × Bytes) :=
@@ -336,5 +352,67 @@ def clientCtype : Codec → Bytes
     was selected. -/
 def statusOf (auto err : Bool) (noCodec : Bool) : Nat :=
   if noCodec then 422 else if !err then 200 else if auto then 400 else 500
+
+/-! ### opaque body codecs and checked index arithmetic (used to state theorems) -/
+
+/-- The opaque body codecs (encoding/json, encoding/xml, fxamacker/cbor, and the form branch seen as
+    a codec): an encoder/decoder pair per kind, with the round-trip law as a field — a hypothesis of
+    `bind_roundtrip_body`, never an axiom. -/
+structure BodyCodecs (V : Type) where
+  enc : Codec → V → Bytes
+  dec : Codec → Bytes → Option V
+  law : ∀ c v, dec c (enc c v) = some v
+
+/-- `Bind().Body`: select by content type, then decode with the selected codec. -/
+def bindBody {V : Type} (cs : BodyCodecs V) (rawCtype body : Bytes) : Option V :=
+  match dispatch rawCtype with
+  | .none => none
+  | c => cs.dec c body
+
+/-- `parseParamSquareBrackets` with Go's index expression `kbytes[i+1]` as a *checked* access:
+    `none` at top level = the index would be out of range (a panic). -/
+def squareBracketsIdx (k : Array Nat) (i : Nat) (n : Nat) (fuel : Nat) : Option (Option Bytes) :=
+  match fuel with
+  | 0 => if i < k.size then none else some (if n > 0 then none else some [])
+  | fuel + 1 =>
+    if h : i < k.size then
+      let c := k[i]
+      if c == 91 then
+        -- `if i+1 < len(kbytes) && kbytes[i+1] != ']'`
+        let dot : Option Bool := if i + 1 < k.size then (k[i + 1]?).map (· != 93) else some false
+        match dot, squareBracketsIdx k (i + 1) (n + 1) fuel with
+        | some d, some r => some (r.map fun r => if d then 46 :: r else r)
+        | _, _ => none
+      else if c == 93 then
+        if n == 0 then some none else squareBracketsIdx k (i + 1) (n - 1) fuel
+      else (squareBracketsIdx k (i + 1) n fuel).map fun r => r.map (c :: ·)
+    else some (if n > 0 then none else some [])
+
+/-- Go slice expression `s[lo:hi]`, checked: `none` = "slice bounds out of range". -/
+def sliceChecked (s : Bytes) (lo hi : Nat) : Option Bytes :=
+  if lo ≤ hi ∧ hi ≤ s.length then some ((s.take hi).drop lo) else none
+
+/-- utils `ParseVendorSpecificContentType` with every slice expression checked. -/
+def parseVendorChecked (c : Bytes) : Option Bytes :=
+  match indexByte c 43 with
+  | none => some c
+  | some plus =>
+    match indexByte c 59 with
+    | none =>
+      match sliceChecked c (plus + 1) c.length, indexByte c 47 with
+      | none, _ => none
+      | some _, none => some c
+      | some p, some slash => (sliceChecked c 0 (slash + 1)).map (· ++ p)
+    | some semi =>
+      if plus < semi then
+        match sliceChecked c (plus + 1) semi, indexByte c 47 with
+        | none, _ => none
+        | some _, none => some c
+        | some p, some slash => (sliceChecked c 0 (slash + 1)).map (· ++ p)
+      else sliceChecked c 0 semi
+
+/-- `*fiber.Error` code of the error the handler gets back from `Bind()` (bind.go `returnErr`):
+    `NewError(400, …)` with automatic handling, the binder's own (non-fiber) error without. -/
+def codeOf (auto err : Bool) : Nat := if err && auto then 400 else 0
 
 end C11
